@@ -39,7 +39,7 @@ var nameSamples = []string{"A", "space", "fi", "f_i", "uni0041", "uni00410042", 
 // genConcOp draws one operation.  Everything it touches is created inside the
 // closure or captured immutably, so tasks share nothing through the harness.
 func genConcOp(t *sim.Tape) concOp {
-	return genConcOpKind(t, t.Weighted(4, 3, 2, 2, 2, 3, 2, 1, 1, 1, 1, 1, 1))
+	return genConcOpKind(t, t.Weighted(4, 3, 2, 2, 2, 3, 2, 1, 1, 1, 1, 1, 1, 1))
 }
 
 func genConcOpKind(t *sim.Tape, kind int) concOp {
@@ -56,6 +56,14 @@ func genConcOpKind(t *sim.Tape, kind int) concOp {
 				src += " /d << /x 1 /y 2 >> def d d eq d << /x 1 /y 2 >> eq systemdict userdict eq"
 			}
 			err := in.Execute(strings.NewReader(src))
+			return dump.Err(err) + " " + dump.InterpNoDSC(in)
+		}}
+	case 13: // a program that allocates 70-130 MB of strings and keeps none
+		n := 1100 + t.Choose(900)
+		return concOp{"Execute(program allocating many large strings)", func() string {
+			in := postscript.NewInterpreter()
+			in.MaxOps = psSafetyBudget
+			err := in.Execute(strings.NewReader(fmt.Sprintf("%d { 65535 string pop } repeat 40 { 60000 array pop } repeat 3 { 60000 dict pop } repeat", n)))
 			return dump.Err(err) + " " + dump.InterpNoDSC(in)
 		}}
 	case 12: // the PFB decoder
@@ -204,7 +212,15 @@ func genConcOpKind(t *sim.Tape, kind int) concOp {
 func foreignFontOp(t *sim.Tape) concOp {
 	var file []byte
 	what := ""
-	switch t.Choose(8) {
+	switch t.Choose(9) {
+	case 8:
+		// a valid font whose program is expensive: a few hundred thousand
+		// operations of prologue (the reader's budget is three million)
+		file = gen.TinyFont(t)
+		if i := bytes.IndexByte(file, '\n'); i > 0 {
+			file = append(append(append([]byte{}, file[:i+1]...), fmt.Sprintf("1 1 %d { pop } for\n", 80000+t.Choose(60000))...), file[i+1:]...)
+		}
+		what = "tiny font with a prologue of 320-560 thousand operations"
 	case 5:
 		file = gen.AliasFont(t)
 		what = "font without /FontName, registered under two names"
